@@ -124,6 +124,86 @@ VMC_HARNESS(ur_timer, "C14,C07") {
   vmc::note(c.d.str());
 }
 
+namespace {
+// receiver of the cancellable timer in *_timer3: optionally starts a further timer from its completion
+template <class Sched>
+struct ChainRcvT {
+  Ctl* c; Ctl* cx; Sched s; long long* chain_due; bool chain; inplace_stop_token tok;
+  void go(char h) noexcept {
+    if (chain) {
+      *chain_due = vmcrt::now_ns() + 3000000;
+      auto& nop = heap_connect(*cx, schedule_at(s, s.now() + std::chrono::milliseconds(3)), IoRcv<unstoppable_token>{cx});
+      unifex::start(nop);
+    }
+    c->signal(h, 0, 0);
+  }
+  void set_value() noexcept { go('V'); }
+  void set_error(std::exception_ptr) noexcept { go('E'); }
+  void set_error(std::error_code) noexcept { go('E'); }
+  void set_done() noexcept { go('D'); }
+  friend inplace_stop_token tag_invoke(tag_t<get_stop_token>, const ChainRcvT& r) noexcept { return r.tok; }
+};
+}  // namespace
+
+// ---- three timers (the context's timer list with an element inserted / removed at the head, in the middle, at the tail) --
+// Due times from {+5ms, +10ms, +10ms (tie), +15ms} chosen per timer (data choice), all started remotely in index order;
+// one of them (data choice) is cancelled by another thread — at once (arg0 = 0), exactly when the FIRST due time arrives
+// (arg0 = 1: the cancellation races the expiry of its own or of a neighbouring timer) or at the victim's own due time
+// (arg0 = 2).  arg1 = 1: the victim's receiver starts a further timer (+3ms) from its completion, like a periodic timer:
+// a context that removes an element that is no longer linked loses or corrupts what was inserted meanwhile.
+// Every operation is freed by its receiver, so a list that still links a completed timer is a use-after-free.
+VMC_HARNESS(ur_timer3, "C14,C07,C01,C02") {
+  static const long long kD[] = {5000000, 10000000, 10000000, 15000000};
+  int when = vmcrt::arg(0, 0); bool chain = vmcrt::arg(1, 0) != 0;
+  int d[3] = {vmc::choose(4), vmc::choose(4), vmc::choose(4)};
+  int victim = vmc::choose(3);
+  World w; Ctl c[3], cx;
+  w.start_loop();
+  auto sched = w.ctx->get_scheduler();
+  inplace_stop_source ss, never;
+  auto base = sched.now();
+  long long t0 = vmcrt::now_ns();
+  long long due[3], stop_at = -1, chain_due = -1;
+  using ChainRcv = ChainRcvT<decltype(sched)>;
+  long long first_due = -1;
+  for (int i = 0; i < 3; ++i) { due[i] = t0 + kD[d[i]]; if (first_due < 0 || due[i] < first_due) first_due = due[i]; }
+  bool all_started = false;
+  std::thread k([&] {
+    vmc::wait_until([&] { return all_started; });
+    long long target = when == 0 ? 0 : when == 1 ? first_due : due[victim];
+    if (target > vmcrt::now_ns()) std::this_thread::sleep_for(std::chrono::nanoseconds(target - vmcrt::now_ns()));
+    stop_at = vmcrt::now_ns();
+    ss.request_stop();
+  });
+  for (int i = 0; i < 3; ++i) {
+    auto at = base + std::chrono::nanoseconds(kD[d[i]]);
+    if (i == victim) { auto& op = heap_connect(c[i], schedule_at(sched, at), ChainRcv{&c[i], &cx, sched, &chain_due, chain, ss.get_token()}); unifex::start(op); }
+    else { auto& op = heap_connect(c[i], schedule_at(sched, at), IoRcv<>{&c[i], never.get_token()}); unifex::start(op); }
+  }
+  all_started = true;
+  k.join();
+  vmc::wait_until([&] { return c[0].d.count && c[1].d.count && c[2].d.count && (!chain || cx.d.count); });
+  w.stop_and_join();
+  for (int i = 0; i < 3; ++i) {
+    vmc::check(c[i].d.count == 1, "C14,C07,C01", "timer-lost", "timer operation did not complete exactly once");
+    if (c[i].d.how == 'V') vmc::check(c[i].d.when >= due[i], "C14,C07", "timer-early", "timer completed with value before its due time");
+    if (i != victim) vmc::check(c[i].d.how == 'V', "C14,C07,C01", "timer-lost", "a timer that was not cancelled did not complete with value");
+    vmc::check(c[i].d.thread == w.io_tid, "C14", "wrong-thread", "timer completed outside run()");
+  }
+  if (c[victim].d.how == 'D') vmc::check(c[victim].d.when < due[victim] || stop_at >= due[victim] - 1, "C14,C07", "cancel-not-prompt", "stopped timer completed with done only when its due time arrived");
+  if (chain) {
+    vmc::check(cx.d.count == 1 && cx.d.how == 'V', "C14,C07,C01", "timer-lost", "the timer started from the victim's completion did not complete with value");
+    vmc::check(cx.d.when >= chain_due, "C14,C07", "timer-early", "chained timer completed before its due time");
+  }
+  // due-time order among the uncancelled ones (ties in submission order; all were queued long before any was due)
+  for (int a = 0; a < 3; ++a) for (int b = 0; b < 3; ++b) {
+    if (a == b || a == victim || b == victim) continue;
+    if (due[a] < due[b] || (due[a] == due[b] && a < b)) vmc::check(c[a].d.when <= c[b].d.when, "C14,C07", "due-order", "timers did not complete in due-time order");
+  }
+  w.finish();
+  vmc::note(std::string(1, c[0].d.how) + c[1].d.how + c[2].d.how + (chain ? cx.d.str() : ""));
+}
+
 // file data path: write wlen bytes at offset 2 of a 6-byte file, then read rlen bytes from offset 1; both remote.
 // args: [wlen, rlen, short(0,1 readv,2 writev)]
 VMC_HARNESS(ur_file, "C14") {
